@@ -103,7 +103,7 @@ CountCases ==
 DeepExps == IF Tier = "quick" THEN {10, 14} ELSE {10, 14, 17, 20, 21}
 DeepCases ==
   UNION {{ShapeCase(Shape("text", op[1], DeepText(op, Pow2(k)), "", "", "", ""), Pow2(k), Len(DeepText(op, Pow2(k))),
-                    40 * Pow2(k) + 10000, <<63>>, 900000) : k \in {k \in DeepExps : k <= op[3]}} : op \in DeepOps}
+                    40 * Pow2(k) + 10000, <<63>>, 900000) : k \in {k \in DeepExps : k <= op[3] /\ (k >= 20 => k = op[3])}} : op \in DeepOps}
 
 ShapeCases == NestCases \cup IndentCases \cup CountCases \cup DeepCases
 NoShape == ShapeCase(Shape("none", "", "", "", "", "", ""), 0, 0, 0, <<>>, 0)
